@@ -421,6 +421,52 @@ def check_main_order(chk, main_tu, prov):
     # clean is set only by the -c option
     sets = [n for n in walk(body) if n.get('kind') == 'BinaryOperator' and n.get('opcode') == '=' and astdb.ref_name(kids(n)[0]) == 'clean']
     chk.expect(len(sets) == 1, 'R20.3', 'clean-flag-single-source', 'the clean flag is assigned at %d places' % len(sets), 'main:clean-flag')
+    # ... and that place is reached for one option letter only: no other option's arm falls through into it
+    for sw in [n for n in walk(body) if n.get('kind') == 'SwitchStmt']:
+        runs = switch_arm_runs(sw, main_tu)
+        for labels, st in runs:
+            if any(x is y for x in walk(st) for y in sets):
+                names = sorted(('-%s' % chr(v)) if isinstance(v, int) and 32 < v < 127 else str(v) for v in labels)
+                chk.expect(len(labels) == 1, 'R20.3', 'clean-flag-one-option',
+                           'the clean flag is set on the arms of the options %s of main\'s option switch (an arm falls through into the next one): '
+                           'a run without the clean option deletes the implementation files in the output directory' % ', '.join(names),
+                           'main:option-switch', astdb.loc_str(st))
+
+
+def switch_arm_runs(sw, tu):
+    """[(set of case values whose execution reaches the statement - fall-through included, statement)] for the top-level statements of
+    a switch body; a case value is a character constant's number, 'default' for the default label"""
+    body = kids(sw)[-1]
+    stmts = body.get('inner', []) if body.get('kind') == 'CompoundStmt' else [body]
+    out = []
+    active = set()
+
+    def terminates(st):
+        k = st.get('kind')
+        if k in ('BreakStmt', 'ReturnStmt', 'GotoStmt', 'ContinueStmt'):
+            return True
+        if k == 'CallExpr' and astdb.callee_name(st) in ('abort', 'exit', '_exit'):
+            return True
+        if k == 'CompoundStmt':
+            inner = [c for c in st.get('inner', []) if c.get('kind')]
+            return bool(inner) and terminates(inner[-1])
+        if k == 'IfStmt':
+            ks = [c for c in st.get('inner', []) if c.get('kind')]
+            return len(ks) == 3 and terminates(ks[1]) and terminates(ks[2])
+        return False
+    for st in stmts:
+        cur = st
+        while cur.get('kind') in ('CaseStmt', 'DefaultStmt'):
+            if cur.get('kind') == 'CaseStmt':
+                v = astdb.const_int(kids(cur)[0], tu)
+                active.add(v if v is not None else astdb.expr_text(kids(cur)[0]))
+            else:
+                active.add('default')
+            cur = kids(cur)[-1]
+        out.append((set(active), cur))
+        if terminates(cur):
+            active = set()
+    return out
 
 
 def remove_language(chk, main_tu, L):
